@@ -2,7 +2,8 @@
 
 Spec    : spec/Peer.tla (two engines; InOrder, AllDelivered, HcFirst under every schedule,
           including data that shares a read with the last handshake bytes) and spec/Script.tla
-          (v3 NULL and ZMTP/2.0 transcripts written blindly, 0..n data frames, every cut).
+          (v3 NULL, v3 PLAIN in either role and ZMTP/2.0 transcripts written blindly, 0..n data frames,
+          every cut).
 TLC     : MC_Peer_quick, MC_Script_open (exhaustive, cuts allowed).
 Binding : B1 at engine level - Peer behaviours on two real engines (NULL, PLAIN, CURVE, Noise_XX),
           Script transcripts on one; and, stated on the real engine alone, the same byte stream
@@ -30,6 +31,12 @@ def run(ctx):
     el.peer_replay(ctx, "C04", psim.replays, "sim")
     el.script_replay(ctx, "C04", ssim.replays, "open")
     el.segment_check(ctx, "C04", ssim.replays, "open")
+    # blind PLAIN transcripts for both roles (WELCOME + READY + data may share one read)
+    ctx.model_check("MC_Script", "MC_Script_transcripts_plain.cfg", workers=8, timeout=900)
+    tsim = ctx.model_check("MC_Script", "MC_Script_simtranscripts_plain.cfg", workers=1, simulate=3000 if thorough else 400, depth=80,
+                           seed=ctx.seed + 3, timeout=900)
+    el.script_replay(ctx, "C04", el.need(tsim, "PLAIN transcripts"), "plain")
+    el.segment_check(ctx, "C04", tsim.replays, "plain")
     el.selftest(ctx, "peer", psim.replays)
     try:
         from props import socklib
